@@ -103,6 +103,38 @@ pub use ptp_instance::{PtpInstance, PtpInstanceState, PtpInstanceStateMutex};
 #[cfg(feature = "std")]
 pub use shared_clock::SharedClock;
 
+/// Entry points to crate-private conversions for external verification
+/// harnesses. Only compiled with `--cfg statime_verif`; not part of the API.
+#[cfg(statime_verif)]
+#[doc(hidden)]
+pub mod verif {
+    use crate::{
+        datastructures::common::{TimeInterval, WireTimestamp},
+        time::{Duration, Time},
+    };
+
+    /// `TimeInterval::from(Duration)`, as raw `I48F16` bits
+    pub fn duration_to_time_interval(d: Duration) -> i64 {
+        TimeInterval::from(d).0.to_bits()
+    }
+
+    /// `Duration::from(TimeInterval)` for raw `I48F16` bits
+    pub fn time_interval_to_duration(bits: i64) -> Duration {
+        TimeInterval(fixed::types::I48F16::from_bits(bits)).into()
+    }
+
+    /// `Time::from(WireTimestamp)`
+    pub fn wire_timestamp_to_time(seconds: u64, nanos: u32) -> Time {
+        WireTimestamp { seconds, nanos }.into()
+    }
+
+    /// `WireTimestamp::from(Time)` together with `Time::subnano()` bits
+    pub fn time_to_wire_timestamp(t: Time) -> (u64, u32, i64) {
+        let w = WireTimestamp::from(t);
+        (w.seconds, w.nanos, t.subnano().0.to_bits())
+    }
+}
+
 /// Helper types used for fuzzing
 ///
 /// Enabled by the `fuzz` `feature`
